@@ -106,10 +106,11 @@ def dt_value(tokn):
 
 def sample_kwargs(case):
     kw = {}
+    num = lambda q: int(F(q)) if (case.get("opt_int") and F(q).denominator == 1) else float(F(q))   # round 3
     if case.get("alpha") is not None:
-        kw["alpha"] = float(F(case["alpha"]))
+        kw["alpha"] = num(case["alpha"])
     if case.get("pw"):
-        kw["prewarp_frequency"] = float(F(case["pw"][0]))
+        kw["prewarp_frequency"] = num(case["pw"][0])
     nm = case.get("names")
     if nm:
         if nm.get("copy") is not None:
@@ -122,7 +123,87 @@ def sample_kwargs(case):
     return kw
 
 
+# ==== strengthening after seeded changes (round 3): calling conventions (begin) ====
+# the optional parameters after Ts of sys.sample / sample_system / c2d in the documented order, with the
+# documented defaults; sample_system has the additional leading parameter `sysc`
+ORDER = ("method", "alpha", "prewarp_frequency", "name", "copy_names")
+DEFAULTS = {"method": "zoh", "alpha": None, "prewarp_frequency": None, "name": None, "copy_names": True}
+SIG = {"S": ("Ts",) + ORDER, "F": ("sysc", "Ts") + ORDER}       # S: sys.sample, F: sample_system / c2d
+NPOS_POOL = [0] * 7 + [1] * 4 + [2] * 3 + [3] * 3 + [4] + [5] * 2
+
+
+def call_plan(case):
+    """the call of a case with a `call` record: (positional arguments after sys / Ts, keyword arguments).
+    `npos` optional parameters are passed positionally in the documented order (a parameter the case does
+    not set gets its documented default explicitly; npos = 6: one argument too many), the others by
+    keyword (`explicit`: also those left at their default), `dup`: a positional one once more by keyword,
+    `omit_method`: method left to its default 'zoh'"""
+    c = case["call"]
+    kw = sample_kwargs(case)
+    given = {}
+    if not (c.get("omit_method") or case.get("via") == "default"):
+        given["method"] = case["method"]
+    for k in ORDER[1:]:
+        if k in kw:
+            given[k] = kw.pop(k)
+    npos = c["npos"]
+    pos = [given.pop(k) if k in given else DEFAULTS[k] for k in ORDER[:min(npos, 5)]]
+    if npos > 5:
+        pos.append(1.0)
+    if c.get("explicit"):
+        for k in ORDER[min(npos, 5):]:
+            given.setdefault(k, DEFAULTS[k])
+    if c.get("dup"):
+        given[c["dup"]] = pos[ORDER.index(c["dup"])]
+    kw.update(given)
+    return pos, kw
+
+
+def call_form(case):
+    """(route S | F, all positional arguments as names, all keyword names in call order) -- the bind line"""
+    c = case["call"]
+    pos, kw = call_plan(case)
+    route = "S" if case.get("via", "method") in ("method", "default") else "F"
+    lead = [] if c.get("sys_kw") or route == "S" else ["sysc"]
+    if not c.get("ts_kw"):
+        lead.append("Ts")
+    kws = (["sysc"] if (route == "F" and c.get("sys_kw")) else []) + (["Ts"] if c.get("ts_kw") else [])
+    return route, len(lead) + len(pos), kws + list(kw)
+
+
+def bind_line(case):
+    route, npos, kws = call_form(case)
+    return "c2d bind %s %d %d%s" % (route, npos, len(kws), "".join(" " + k for k in kws))
+
+
+def expected_slots(case):
+    """the harness's own reading of the call (cross-checked against the model's binding)"""
+    route, npos, kws = call_form(case)
+    return ["p%d" % i if i < npos else ("k%d" % kws.index(p) if p in kws else "d")
+            for i, p in enumerate(SIG[route])]
+
+
+def call_with_plan(sys, case):
+    c = case["call"]
+    pos, kw = call_plan(case)
+    Ts = ts_value(case)
+    via = case.get("via", "method")
+    if via in ("method", "default"):
+        if c.get("ts_kw"):
+            return sys.sample(*pos, Ts=Ts, **kw)
+        return sys.sample(Ts, *pos, **kw)
+    f = ct.c2d if via == "c2d" else ct.sample_system
+    if c.get("sys_kw"):
+        return f(*pos, sysc=sys, Ts=Ts, **kw)
+    if c.get("ts_kw"):
+        return f(sys, *pos, Ts=Ts, **kw)
+    return f(sys, Ts, *pos, **kw)
+# ==== strengthening after seeded changes (round 3): calling conventions (end) ====
+
+
 def call_sample(sys, case):
+    if case.get("call"):
+        return call_with_plan(sys, case)
     kw = sample_kwargs(case)
     Ts = ts_value(case)
     via = case.get("via", "method")
@@ -327,7 +408,12 @@ class C14(Family):
         "matrices and transfer-matrix values are compared after undoing the scaling",
         "period kinds: Python float / int, numpy.float64 and the Python value True (numbers of Ts = 1, stored "
         "timebase True); numpy integer / float32 / 0-dim array periods (rejected by the constructor's timebase "
-        "validation) are not generated"]
+        "validation) are not generated",
+        # strengthening after seeded changes (round 3)
+        "calling conventions: the expected result of a call is that of the values bound to the documented "
+        "parameter order Ts, method, alpha, prewarp_frequency, name, copy_names (sample_system / c2d: sysc first) "
+        "by the model's bindArgs; name / copy_names as 5th / 6th optional positional argument follow the common "
+        "signature of the three entry points (the docstrings list them under 'Other Parameters')"]
     rule = ("state-space systems (0..3 states, quick; ..4 thorough; shapes {1,2,3}^2, integer/dyadic data), "
             "SISO transfer functions (degree 0..4), Ts dyadic, all method names incl. unknown ones, "
             "alpha in {0,1/4,1/2,3/4,1} and invalid, prewarp frequencies incl. 0, source timebases "
@@ -337,6 +423,11 @@ class C14(Family):
             "numpy.float64 / True; a second step (series / parallel with a system of timebase None / True / "
             "0 / another or the same period, either operand order); SISO TFs with tiny exact coefficients "
             "(small period x relative degree, small gain) incl. zero-order hold; B / C scaled by 2^-45 .. 2^30; "
+            "calling conventions on each route (sys.sample / sample_system / c2d): any prefix of method, alpha, "
+            "prewarp_frequency, name, copy_names passed positionally in the documented order (unset ones at their "
+            "defaults), the rest by keyword (also explicitly at their defaults), method omitted, Ts= / sysc= by "
+            "keyword, integer-valued alpha / prewarp_frequency as ints, calls Python rejects (too many positional "
+            "arguments, a parameter given twice); pade by position and by keyword; "
             "a case is "
             "non-trivial when the system has states / degree >= 1 (pade: n >= 1) and the model returns a result")
 
@@ -389,7 +480,7 @@ class C14(Family):
 
     def set_tan(self, case):
         if case.get("pw"):
-            w = float(F(case["pw"][0]))
+            w = sample_kwargs(case)["prewarp_frequency"]      # float, or int when `opt_int` (round 3)
             Ts = ts_value(case)
             case["pw"][1] = tok(fr(float(np.tan(w * Ts / 2))))
 
@@ -435,6 +526,7 @@ class C14(Family):
             if rng.random() < 0.02:
                 case["Ts"] = rng.choice(["-1/2", "-1"])
             self.add_period(rng, case)
+            self.add_call(rng, case)
             self.set_tan(case)
             if not self.guard_ss(case):
                 continue
@@ -487,6 +579,7 @@ class C14(Family):
                     "via": rng.choice(["method", "method", "func", "c2d"]),
                     "names": self.gen_names(rng, 1, 1, 0, tf=True)}
             self.add_period(rng, case)
+            self.add_call(rng, case)
             self.set_tan(case)
             a, h = alpha_of(case), twarp_of(case)
             if a is not None and h is not None and method in GBT_METHODS and a * h != 0:
@@ -513,6 +606,7 @@ class C14(Family):
                 "via": rng.choice(["method", "func", "c2d", "default"]),
                 "names": self.gen_names(rng, 1, 1, 0, tf=True)}
         self.add_period(rng, case)
+        self.add_call(rng, case)
         self.fill_tfzoh(case)
         return case
 
@@ -540,16 +634,47 @@ class C14(Family):
         Ts = rng.choice(["1/4", "1/2", "1", "3/4"])
         case = {"k": "matched", "num": toklist(num), "den": toklist(den), "zeros": toklist(zeros),
                 "poles": toklist(poles), "Ts": Ts, "ts_int": False, "method": "matched",
-                "via": rng.choice(["method", "func"]), "dt": "C",
+                "via": rng.choice(["method", "func", "c2d"]), "dt": "C",
                 "names": self.gen_names(rng, 1, 1, 0, tf=True)}
         if case["names"]:
             case["names"]["oin"] = case["names"]["oout"] = None if rng.random() < 0.7 else ["q"]
         self.add_period(rng, case)
+        self.add_call(rng, case)
         Ts = case["Ts"]
         T = float(F(Ts))
         case["ez"] = [tok(fr(float(np.exp(float(z) * T)))) for z in zeros]
         case["ep"] = [tok(fr(float(np.exp(float(p) * T)))) for p in poles]
         return case
+
+    # ==== strengthening after seeded changes (round 3): calling conventions (begin) ====
+    def add_call(self, rng, case):
+        """how the arguments reach the function: the optional parameters (method, alpha, prewarp_frequency,
+        name, copy_names) as positional arguments in the documented order -- any prefix of them, a
+        parameter the case leaves unset filled with its documented default (e.g. `'bilinear', None, w0`)
+        -- or by keyword (also: explicitly at their defaults), on each of the three routes sys.sample /
+        sample_system / c2d; method omitted (default 'zoh') on each route; Ts and sysc by keyword;
+        integer-valued alpha / prewarp_frequency as Python ints; and the calls Python itself rejects (one
+        positional argument too many, a parameter given positionally and by keyword)"""
+        c = {"npos": rng.choice(NPOS_POOL), "explicit": rng.random() < 0.2}
+        if case["method"] == "zoh" and rng.random() < 0.45:
+            c["omit_method"] = True                         # really omitted only when nothing is positional
+            if rng.random() < 0.7:
+                c["npos"] = 0
+        r = rng.random()
+        if r < 0.03:
+            c["npos"] = 6                                   # too many positional arguments: TypeError
+        elif r < 0.07 and c["npos"] >= 1:
+            c["dup"] = ORDER[rng.randrange(c["npos"])]      # multiple values for a parameter: TypeError
+        elif r < 0.19:
+            c["ts_kw"] = True
+            if rng.random() < 0.85:
+                c["npos"] = 0                               # (else: the first option lands in Ts: TypeError)
+            if case.get("via") in ("func", "c2d") and rng.random() < 0.5:
+                c["sys_kw"] = True
+        case["call"] = c
+        if rng.random() < 0.25:
+            case["opt_int"] = True
+    # ==== strengthening after seeded changes (round 3): calling conventions (end) ====
 
     # ==== strengthening after seeded changes: generators (begin) ====
     def add_period(self, rng, case):
@@ -599,6 +724,7 @@ class C14(Family):
                     "names": None, "tiny": True}
             if not zoh and method in ("bilinear", "tustin") and rng.random() < 0.25:
                 case["pw"] = [rng.choice(W_POOL), None]
+            self.add_call(rng, case)
             self.set_tan(case)
             h = twarp_of(case)
             if zoh:
@@ -645,7 +771,8 @@ class C14(Family):
         if rng.random() < 0.05:
             T = "0"
         kind = rng.choice(["float", "float", "int"])
-        return {"k": "pade", "T": T, "Tkind": kind, "n": n, "nd": nd}
+        # round 3: pade(T, n, numdeg) / pade(T, n=, numdeg=) / pade(T=, n=, numdeg=) / pade(T, n, numdeg=)
+        return {"k": "pade", "T": T, "Tkind": kind, "n": n, "nd": nd, "kwform": rng.choice([0, 0, 1, 2, 3])}
 
     def generate(self, rng, tier):
         out = []
@@ -711,7 +838,20 @@ class C14(Family):
               "ts_int": False, "method": "zoh", "alpha": None, "pw": None, "via": "method", "names": None,
               "tiny": True}
         self.fill_tfzoh(c9)
-        return [c1, c2, c3, c4, c5, {"k": "pade", "T": "1", "Tkind": "int", "n": 3, "nd": -2}, c7, c8, c9]
+        # round 3: calling conventions -- c2d(G, Ts, 'bilinear', None, w0), sample_system(G, Ts, 'gbt', 1/4),
+        # G.sample(Ts, 'tustin', None, w0, 'zz', False), sample_system(sysc=G, Ts=Ts) (method omitted)
+        c10 = dict(base, method="bilinear", pw=["2", None], via="c2d", call={"npos": 3})
+        self.set_tan(c10)
+        c11 = dict(base, method="gbt", alpha="1/4", via="func", call={"npos": 2})
+        c12 = dict(base, method="tustin", pw=["1", None], via="method", call={"npos": 5}, opt_int=True,
+                   names={"copy": False, "name": "zz", "src": "plant", "in": ["uu"], "out": ["yy"],
+                          "st": ["a", "b"], "oin": None, "oout": None, "ost": None})
+        self.set_tan(c12)
+        c13 = dict(base, method="zoh", A=["0", "1", "0", "0"], via="func",
+                   call={"npos": 0, "omit_method": True, "ts_kw": True, "sys_kw": True})
+        self.set_ext(c13)
+        return [c1, c2, c3, c4, c5, {"k": "pade", "T": "1", "Tkind": "int", "n": 3, "nd": -2}, c7, c8, c9,
+                c10, c11, c12, c13, {"k": "pade", "T": "1/2", "Tkind": "float", "n": 3, "nd": 2, "kwform": 1}]
 
     # ---- execution ------------------------------------------------------------------
     def opt(self, x):
@@ -729,19 +869,24 @@ class C14(Family):
             l1 = "c2d ss %d %d %d %s %s %s %s %s %s %s" % (
                 n, p, m, case["dt"], " ".join(case["A"] + case["B"] + case["C"] + case["D"]),
                 ts_tok(case), method, self.opt(case.get("alpha")), pw, ext)
-            return [" ".join(l1.split()) + join_tok(case), names_line(case, m, p, n if k == "ss" else 0)]
+            return [" ".join(l1.split()) + join_tok(case),
+                    names_line(case, m, p, n if k == "ss" else 0)] + self.bind_lines(case)
         if k == "tf":
             l1 = "c2d tf %d %s %d %s %s %s %s %s %s" % (
                 len(case["num"]), " ".join(case["num"]), len(case["den"]), " ".join(case["den"]),
                 case["dt"], ts_tok(case), method, self.opt(case.get("alpha")), pw)
-            return [l1 + join_tok(case), names_line(case, 1, 1, 0)]
+            return [l1 + join_tok(case), names_line(case, 1, 1, 0)] + self.bind_lines(case)
         if k == "matched":
             ls = lambda v: "%d%s" % (len(v), "".join(" " + x for x in v))
             l1 = "c2d matched %s %s %s %s %s %s %s" % (
                 ls(case["num"]), ls(case["den"]), ls(case["zeros"]), ls(case["poles"]),
                 ls(case["ez"]), ls(case["ep"]), ts_tok(case))
-            return [l1 + join_tok(case), names_line(case, 1, 1, 0)]
+            return [l1 + join_tok(case), names_line(case, 1, 1, 0)] + self.bind_lines(case)
         raise ValueError(k)
+
+    def bind_lines(self, case):
+        """round 3: the call form, bound by the model (`bindArgs` on the documented signature)"""
+        return [bind_line(case)] if case.get("call") else []
 
     def build(self, case):
         nm = case.get("names") or {}
@@ -771,7 +916,9 @@ class C14(Family):
                 args = (Tv, case["n"]) + (() if case["nd"] is None else (case["nd"],))
                 if case.get("dflt"):            # pade(T): the default n=1, numdeg=None of the signature
                     args = (Tv,)
-                num, den = ct.pade(*args)
+                names, kwform = ("T", "n", "numdeg"), case.get("kwform", 0)      # round 3: keyword forms
+                npos = {0: 3, 1: 1, 2: 0, 3: 2}[kwform]
+                num, den = ct.pade(*args[:npos], **dict(list(zip(names, args))[npos:]))
                 return {"ok": {"num": [tok(fr(x)) for x in num], "den": [tok(fr(x)) for x in den]}}
             sys = self.build(case)
         except Exception as e:  # noqa
@@ -814,7 +961,15 @@ class C14(Family):
             num = [tok(x) for x in tk.rats()]
             den = [tok(x) for x in tk.rats()]
             return {"ok": {"num": num, "den": den}}
-        o1, o2 = out
+        o1, o2 = out[0], out[1]
+        if case.get("call"):        # round 3: the model's binding of the call
+            o3 = out[2]
+            if o3.startswith("err "):
+                return {"err": o3.split()[1], "bind": "rejected"}
+            t = o3.split()
+            assert t[:2] == ["ok", "bind"], o3
+            if t[2:] != expected_slots(case):      # the harness built another call than the model bound
+                raise AssertionError("bind: model %s, harness %s" % (t[2:], expected_slots(case)))
         o1, mjoin = split_join(o1)
         names = parse_names(o2)
         if o1.startswith("err "):
@@ -845,6 +1000,8 @@ class C14(Family):
             feat["msg"] = re.sub(r"[0-9.]+", "#", impl["exc"].split(":", 1)[1].strip())[:50]
         if case.get("pw") and F(case["pw"][0]) == 0:
             feat["prewarp_zero"] = True
+        if case.get("call"):        # round 3
+            feat["args"] = "positional" if case["call"]["npos"] else "keyword"
         feat.update(extra)
         return feat
 
@@ -1087,6 +1244,8 @@ class C14(Family):
         st = {"family": case["k"], "outcome": ("err:" + model["err"]) if "err" in model else "ok"}
         if case["k"] == "pade":
             st["pade_n"] = case["n"]
+            st["pade_call"] = {0: "positional", 1: "T,n=,numdeg=", 2: "T=,n=,numdeg=", 3: "T,n,numdeg="}[
+                case.get("kwform", 0)]
             return st
         st["method"] = case["method"] if case["method"] in GBT_METHODS + ("zoh", "matched") else "other"
         st["via"] = case.get("via")
@@ -1114,6 +1273,16 @@ class C14(Family):
             mj = model.get("join") or {}
             st["second_step"] = "%s:%s->%s" % (st["period"] if st["period"] == "true" else "number",
                                                case["join"]["dt"][0], "err" if "err" in mj else mj.get("dt", "-")[0])
+        if case.get("call"):        # round 3: calling conventions
+            c = case["call"]
+            st["call"] = "%s:pos%d%s%s%s%s" % (
+                {"method": "sample", "default": "sample"}.get(case.get("via"), case.get("via")), c["npos"],
+                "+explicit-defaults" if c.get("explicit") else "", "+Ts=" if c.get("ts_kw") else "",
+                "+sysc=" if c.get("sys_kw") else "", "+dup" if c.get("dup") else "")
+            st["method_omitted"] = bool((c.get("omit_method") or case.get("via") == "default") and c["npos"] == 0)
+            st["call_rejected"] = model.get("bind") == "rejected"
+            if case.get("opt_int"):
+                st["int_options"] = True
         if case.get("scale"):
             st["scaled"] = "B2^%d,C2^%d" % (case["scale"]["B"], case["scale"]["C"])
         if case.get("tiny"):
@@ -1173,6 +1342,14 @@ class C14(Family):
             yield dict(case, via="method")
         if case.get("join"):
             yield dict(case, join=None)
+        if case.get("call"):        # round 3: towards the plain keyword call
+            c = case["call"]
+            if c.get("explicit") or c.get("omit_method") or c.get("ts_kw") or c.get("sys_kw"):
+                yield dict(case, call={"npos": c["npos"], **({"dup": c["dup"]} if c.get("dup") else {})})
+            if c["npos"] and not c.get("dup"):
+                yield dict(case, call=dict(c, npos=c["npos"] - 1))
+            if case.get("opt_int"):
+                yield dict(case, opt_int=False)
         if case["k"] == "ss":
             n, p, m = case["n"], case["p"], case["m"]
             if n > 1 and not case.get("names"):
